@@ -619,7 +619,14 @@ impl Check for C13 {
                 warm_after,
             };
         }
-        let (api, shape, weights) = gen_case(g, false);
+        let (mut api, mut shape, mut weights) = gen_case(g, false);
+        if run % 6 == 3 {
+            // dense sweep (by run index) of the number of members 1..=96 of a dynamic list
+            let n = 1 + ((run / 6) % 96) as usize;
+            api = Api::Dyn;
+            shape = left_chain(n);
+            weights = (0..n).map(|_| if g.chance(1, 4) { 0 } else { g.range(1, 9) as u32 }).collect();
+        }
         let n = weights.len();
         let pop_len = if g.chance(1, 3) { Some(g.urange(0, n)) } else { None };
         let warm_after = if api == Api::Dyn && n >= 2 && g.chance(1, 3) { Some(g.urange(1, n - 1)) } else { None };
